@@ -25,10 +25,10 @@ fn oracle(src: &Range<usize>, i: u32, j: u32) -> Option<usize> {
 }
 
 /// `range(s, e)`: bounds (s, e), h*w cells, equals the source where they overlap, default elsewhere.
-/// Every window with corners s <= e inside rows 0..=4 x cols 0..=5 is enumerated concretely.
+/// Every window with corners s <= e inside rows 0..=3 x cols 0..=4 is enumerated concretely.
 fn check_window(h: u32, w: u32) {
     let src = any_src(h, w);
-    let (nr, nc) = (5u32, 6u32);
+    let (nr, nc) = (4u32, 5u32);
     let mut s0 = 0u32;
     while s0 < nr {
         let mut e0 = s0;
@@ -66,12 +66,16 @@ fn check_one_window(src: &Range<usize>, s: (u32, u32), e: (u32, u32)) {
     }
 }
 #[kani::proof]
+#[kani::unwind(7)]
 fn range_window_1x1() { check_window(1, 1); }
 #[kani::proof]
+#[kani::unwind(7)]
 fn range_window_1x2() { check_window(1, 2); }
 #[kani::proof]
+#[kani::unwind(7)]
 fn range_window_2x1() { check_window(2, 1); }
 #[kani::proof]
+#[kani::unwind(7)]
 fn range_window_2x2() { check_window(2, 2); }
 
 /// rows(): h rows of w cells, row i == inner[i*w .. (i+1)*w]; size_hint exact; next_back yields the last row
@@ -105,10 +109,13 @@ fn check_rows(h: u32, w: u32) {
     assert!(back.len() == hh - 1);
 }
 #[kani::proof]
+#[kani::unwind(5)]
 fn range_rows_3x3() { check_rows(3, 3); }
 #[kani::proof]
+#[kani::unwind(5)]
 fn range_rows_2x3() { check_rows(2, 3); }
 #[kani::proof]
+#[kani::unwind(5)]
 fn range_rows_3x1() { check_rows(3, 1); }
 
 /// cells(): enumerates (i / w, i % w, &inner[i]) in order; used_cells(): exactly the non-default ones among them, in order
@@ -153,12 +160,15 @@ fn check_cells(h: u32, w: u32) {
     }
 }
 #[kani::proof]
+#[kani::unwind(11)]
 fn range_cells_3x3() { check_cells(3, 3); }
 #[kani::proof]
+#[kani::unwind(8)]
 fn range_cells_2x3() { check_cells(2, 3); }
 
 /// the empty range: no rows, no cells, zero size, no corners
 #[kani::proof]
+#[kani::unwind(3)]
 fn range_empty_iters() {
     let e: Range<usize> = Range::empty();
     assert!(e.rows().next().is_none() && e.rows().size_hint() == (0, Some(0)));
@@ -169,6 +179,7 @@ fn range_empty_iters() {
 
 /// IndexMut agrees with Index/get; out-of-rectangle (usize, usize) index panics
 #[kani::proof]
+#[kani::unwind(8)]
 fn range_index_mut_2x3() {
     let mut src = any_src(2, 3);
     let i: usize = kani::any();
@@ -187,6 +198,7 @@ fn range_index_mut_2x3() {
     assert!(src[(i, j)] == w && src.get((i, j)) == Some(&w));
 }
 #[kani::proof]
+#[kani::unwind(8)]
 #[kani::should_panic]
 fn range_index_oob_panics() {
     let src = any_src(2, 3);
@@ -229,4 +241,5 @@ fn check_set_value(h: u32, w: u32) {
     }
 }
 #[kani::proof]
+#[kani::unwind(8)]
 fn range_set_value_rect_1x2() { check_set_value(1, 2); }
